@@ -74,3 +74,50 @@ func VP_C04_enrich() {
 	ra, _ := seen.GetAttribute(identity.AttrRemoteAddr).(string)
 	vpAssert(ra == peer, "remote-address-attribute-is-the-tcp-peer")
 }
+
+//vp:property C04 C12
+//vp:bounds one browser session, two requests: the first from peer address A (no X-Forwarded-For) after which the identity is saved into the session as the login callback does; the second from peer B, with or without an X-Forwarded-For value of <= 3 ASCII bytes
+//vp:reach second
+func VP_C04_enrich_twice() {
+	vpResetWeb()
+	vpSnaps = nil
+	st := vpNewStore()
+	sessionStore = st
+	var seen identity.Identity
+	next := http.HandlerFunc(func(w http.ResponseWriter, r *http.Request) { seen = identity.FromRequestCtx(r) })
+	r1 := vpRequest("GET", http.Header{}, nil)
+	r1.RemoteAddr = "192.0.2.10:4000"
+	EnrichContext(next).ServeHTTP(vpNewRW(), r1)
+	vpAssert(seen != nil, "first-request-handled")
+	if seen == nil {
+		return
+	}
+	// the login callback persists the identity, attributes included
+	seen.SetAuthenticated(true)
+	vpAssert(SaveSessionIdentity(r1, vpNewRW(), seen) == nil, "identity-saved")
+	hdr := http.Header{}
+	xff := ""
+	if vpBool("second-has-xff") {
+		xff = vpString("xff", 3)
+		for i := 0; i < len(xff); i++ {
+			vpAssume(xff[i] < 0x80)
+		}
+		hdr["X-Forwarded-For"] = []string{xff}
+	}
+	r2 := vpRequest("GET", hdr, nil)
+	r2.RemoteAddr = "198.51.100.7:5000"
+	seen = nil
+	EnrichContext(next).ServeHTTP(vpNewRW(), r2)
+	vpReach("second")
+	vpAssert(seen != nil, "second-request-handled")
+	if seen == nil {
+		return
+	}
+	got, _ := seen.GetAttribute(identity.AttrClientIp).(string)
+	vpObserveStr("clientIp", got)
+	if xff != "" {
+		vpAssert(got == vpFirstXFF(xff), "client-address-is-the-current-requests-forwarded-address")
+	} else {
+		vpAssert(got == "198.51.100.7", "client-address-is-the-current-requests-peer-not-the-login-address")
+	}
+}
